@@ -202,9 +202,10 @@ func (e *Engine) validProgram(ch *kernel.Chooser, st *kernel.Stats) *gen.Program
 	}
 	o := xutil.Parse(xutil.PlainBuilder(xutil.Mode{}), p.Text)
 	if o.Panic != nil || o.Err != nil {
-		// "xjs accepts every valid subset program" is C02's business, not ours
-		st.Inc("discarded.xjs_rejects_valid")
-		return nil
+		// "xjs accepts every valid subset program" is C02's business, not ours. The program is kept all the same:
+		// its corruptions still have to be reported at the right place (C12), and parsing it still has to obey
+		// the contract (C11).
+		st.Inc("generated_program_rejected_by_xjs_kept")
 	}
 	return p
 }
